@@ -4,6 +4,7 @@ package slip
 
 import (
 	"reflect"
+	"sort"
 	"strconv"
 )
 
@@ -127,8 +128,15 @@ func (obj HashTable) LoadForm() Object {
 		Symbol("let"),
 		List{List{tsym, List{Symbol("make-hash-table")}}},
 	}
-	for k, v := range obj {
-		form = append(form, List{Symbol("setf"), List{Symbol("gethash"), LoadFormOf(k), tsym}, LoadFormOf(v)})
+	// The entries are written in the order of their printed keys so the
+	// form is the same each time it is made.
+	keys := make([]Object, 0, len(obj))
+	for k := range obj {
+		keys = append(keys, k)
+	}
+	sort.Slice(keys, func(i, j int) bool { return ObjectString(keys[i]) < ObjectString(keys[j]) })
+	for _, k := range keys {
+		form = append(form, List{Symbol("setf"), List{Symbol("gethash"), LoadFormOf(k), tsym}, LoadFormOf(obj[k])})
 	}
 	form = append(form, Symbol("table"))
 
